@@ -18,13 +18,15 @@ for func in names:
         t0 = time.time()
         res = C.verify(E, C.REGISTRY[k], verbose=verbose)
         print('== %s: paths=%d normal=%d exc=%d aborted=%d %.1fs' % (k, res.paths, res.normal, res.exceptional, res.aborted, time.time() - t0))
-        for u in res.unsupported:
-            print('   UNSUPPORTED', u)
+        for u in res.unsupported[:6]:
+            print('   UNSUPPORTED', ' '.join(str(u).split())[:220])
+        if len(res.unsupported) > 6:
+            print('   ... %d more UNSUPPORTED' % (len(res.unsupported) - 6))
         for ob in E.obligations.values():
             print('   %-11s %-60s paths=%d %s' % (ob.status, ob.oid[len(k):], ob.paths, ','.join(sorted(ob.backends))))
             if ob.status != 'discharged' and ob.detail.startswith('UNSUPPORTED'):
                 continue
             if ob.status != 'discharged':
                 print('        detail:', ob.detail[:300])
-                print('        model :', {a: b for a, b in (ob.model or {}).items() if not a.startswith('k!')})
+                print('        model :', str({a: b for a, b in (ob.model or {}).items() if not a.startswith('k!')})[:300])
         print('   inlined:', sorted(E.inlined))
